@@ -1,23 +1,38 @@
 (* NetIds.v — identifiers (C14) and delivered parameter lists (C15) on the FAITHFUL model
    (NetModel.v).
 
-   1. A second frame rule ([wframe], [wframe_block]): like NetQuiescent's [frame_block], but the
-      relation only has to respect the updates the mechanism REALLY performs on API objects
-      (uuid and parameter list) and on the log (entries that are not notifications; the
-      notification entries are a separate obligation [wnotif]).  This is what relations that
-      talk about the log or about fields of API objects need.
+   0. Elementary facts about identifiers ([ident_nat_ITest_inj], [new_test_or_uuid_test]).
+   1. A second frame rule ([wframe], [wframe_generate], [wframe_block]): like NetQuiescent's
+      [frame_block], but the relation only has to respect the updates the mechanism REALLY
+      performs on API objects (identifier and delivered list) and on the log (entries that are
+      not notifications; the notification entries are a separate obligation [wnotif]).  This
+      is what relations that talk about the log or about fields of API objects need.
    2. C14, test-id mode: what a computation adds to the log are started notifications TO
       FUNCTION 0 whose identifiers come from the counter range of that computation, without
-      repetition ([IdN]); every function of the mutual block respects it ([ids_block]) -- for
-      every environment (re-entrant completions, hostile mutation) and with run-time
-      generation --, then the API and scripts ([net_ranged], [net_ids_unique], [net_ids_pairwise]).
-      The statement is FALSE for a second registered function ([second_listener_duplicates]).
-   3. C15: the source parameter list and the static fields of every API object are never
-      written ([src_block], [api_call_static]); for an in-loop instance the delivered list is
-      rebuilt from the source at every start, whatever it contained before
-      ([on_task_started_rebuilds], [on_service_started_rebuilds]: EQUAL results); what holds for
-      instances outside loops; the hostile engine writes the list of the notified instance
-      only ([er_body_writes]).
+      repetition ([IdN]); every function of the mutual block respects it ([ids_block]; the
+      notification loop has its own specification [nu_spec], the start handlers are split into
+      prefix and notification: [ots_prefix], [oss_prefix]) -- for every environment (re-entrant
+      completions, immediate completions, hostile mutation) and with run-time generation --;
+      then the API and scripts ([net_api_ids], [net_ranged], [net_ids_unique],
+      [net_ids_positions], [net_ids_pairwise], [run_net_ids_unique]); hypothesis [ApiInv]
+      (test-id mode, no pair registered twice), established by the constructor
+      ([net_init_inv]) and kept by every call.  Non-vacuity: [ids_inhabited],
+      [ids_inhabited_reentrant].
+      The statement is FALSE for a second registered function and for the observers' log
+      entry ([second_listener_duplicates], [unique_for_all_functions_false],
+      [observer_duplicates]): the one mutable API object is handed to every callback, and a
+      completion sent from inside function 0's notification restarts it before the next
+      callback sees it.
+   3. C15: (a) the source parameter list and the static fields of every API object are never
+      written ([src_block], [api_call_static], [source_never_modified]); (b) for an in-loop
+      instance the delivered list is rebuilt from the source at every start, whatever it
+      contained before ([on_task_started_rebuilds], [on_service_started_rebuilds]: EQUAL
+      results, both identifier modes); (c) instances outside loops: delivered as is
+      ([ots_prefix_nonloop], [oss_prefix_nonloop]); (d) the hostile engine writes the list of the
+      notified instance only ([er_body_writes], [engine_reacts_writes],
+      [er_body_other_instance]); (e) the start of one instance reads nothing of another
+      instance's delivered list ([ots_prefix_other], [oss_prefix_other]).  Non-vacuity:
+      [rebuild_inhabited].
    Proof file. *)
 From PFDL Require Import Examples.
 From PFDL Require Import NetModel NetRun NetC08 NetQuiescent.
@@ -1712,3 +1727,188 @@ Proof.
     repeat split.
   - intros m [->|[->| ->]]; eexists; (split; [vm_compute; reflexivity|vm_compute; reflexivity]).
 Qed.
+
+(* [sched_fire_event_ids] with the definitions unfolded *)
+Theorem sched_fire_event_ids_unfolded : forall tasks env f ev s b s',
+    sched_fire_event tasks env f ev s = Ok (b, s') ->
+    ns_test_ids s = true -> (forall k, NoDup (listeners_of k (ns_ls s))) ->
+    ns_tid s <= ns_tid s' /\ ns_sid s <= ns_sid s' /\
+    exists new, ns_log s' = new ++ ns_log s /\
+      NoDup (sids TS new) /\ NoDup (sids SS new) /\
+      (forall x, In x (sids TS new) -> ns_tid s <= x < ns_tid s') /\
+      (forall x, In x (sids SS new) -> ns_sid s <= x < ns_sid s').
+Proof.
+  intros tasks env f ev s b s' H T L.
+  destruct (sched_fire_event_ids tasks env f ev s b s' H (conj T L)) as (_ & _ & H3 & H4 & _ & _ & H7).
+  exact (conj H3 (conj H4 H7)).
+Qed.
+
+(* ---- (e) starting instance bi reads nothing of the delivered list of another instance ai:
+        the start prefix commutes with replacing ai's delivered list ---- *)
+Definition rmap {A} (g : NS -> NS) (r : res (A * NS)) : res (A * NS) :=
+  match r with
+  | Ok (x, s1) => Ok (x, g s1)
+  | Fuel => Fuel | Exn k => Exn k | Unsupported => Unsupported
+  end.
+
+Definition comm {A} (g : NS -> NS) (m : NM A) : Prop := forall s, m (g s) = rmap g (m s).
+
+Lemma upd_comm : forall A i j (f h : A -> A) l, i <> j -> upd i f (upd j h l) = upd j h (upd i f l).
+Proof.
+  intros A i j f h l. revert i j. induction l as [|x l IH]; intros [|i] [|j] H; cbn; try reflexivity.
+  - exfalso. apply H. reflexivity.
+  - rewrite IH; [reflexivity|]. intro E. apply H. rewrite E. reflexivity.
+Qed.
+
+Section Commute.
+  Variable ai : nat.
+  Variable ps : list param.
+  Let g := with_delivered ai ps.
+
+  Lemma comm_ret : forall A (a : A), comm g (nret a).
+  Proof. intros A a s. reflexivity. Qed.
+  Lemma comm_fail : forall A (r : res A), comm g (nfail r).
+  Proof. intros A r s. unfold nfail. destruct r; reflexivity. Qed.
+  Lemma comm_bind : forall A B (m : NM A) (k : A -> NM B),
+      comm g m -> (forall a, comm g (k a)) -> comm g (nbind m k).
+  Proof.
+    intros A B m k Hm Hk s. unfold nbind. rewrite Hm. destruct (m s) as [[a s1]| | |]; cbn [rmap]; try reflexivity.
+    apply Hk.
+  Qed.
+  (* a continuation that reads only fields other than the API objects *)
+  Lemma comm_nget : forall A (k : NS -> NM A),
+      (forall s0, comm g (k s0)) -> (forall s0, k (g s0) = k s0) -> comm g (nbind nget k).
+  Proof. intros A k H1 H2 s. rewrite !nbind_nget, H2. apply H1. Qed.
+  (* a continuation that reads only the identifier (or: any API object but ai) *)
+  Lemma comm_get_api : forall A i (k : api -> NM A),
+      (forall c, comm g (k c)) -> (i = ai -> forall c, k (with_params ps c) = k c) -> comm g (nbind (get_api i) k).
+  Proof.
+    intros A i k H1 H2 s. unfold nbind at 1 2, get_api. unfold g at 1 2, with_delivered. cbn [ns_apis set].
+    change (ns_apis (s <| ns_apis := upd ai (with_params ps) (ns_apis s) |>))
+      with (upd ai (with_params ps) (ns_apis s)).
+    rewrite nth_error_upd. destruct (Nat.eqb ai i) eqn:E.
+    - apply Nat.eqb_eq in E. destruct (nth_error (ns_apis s) i) as [c|]; cbn [option_map]; [|reflexivity].
+      rewrite (H2 (eq_sym E) c). apply H1.
+    - destruct (nth_error (ns_apis s) i) as [c|]; [|reflexivity]. apply H1.
+  Qed.
+  Lemma comm_set_api : forall i f, i <> ai -> comm g (set_api i f).
+  Proof.
+    intros i f H s. unfold set_api, nmod. cbn [rmap]. f_equal. f_equal. unfold g, with_delivered. cbn.
+    rewrite upd_comm by exact H. reflexivity.
+  Qed.
+  Lemma comm_nmod : forall f, (forall s, f (g s) = g (f s)) -> comm g (nmod f).
+  Proof. intros f H s. unfold nmod. cbn [rmap]. rewrite H. reflexivity. Qed.
+  Lemma comm_fresh_uuid : comm g fresh_uuid.
+  Proof. intro s. reflexivity. Qed.
+  Lemma comm_new_test_or_uuid : forall b, comm g (new_test_or_uuid b).
+  Proof.
+    intros b s. unfold new_test_or_uuid. rewrite !nbind_nget.
+    change (ns_test_ids (g s)) with (ns_test_ids s). destruct (ns_test_ids s); [destruct b|]; reflexivity.
+  Qed.
+
+  Variable tasks : list task.
+
+  Lemma comm_substitute : forall bi, bi <> ai -> comm g (substitute_loop_indexes tasks bi).
+  Proof.
+    intros bi Hb. unfold substitute_loop_indexes.
+    apply comm_get_api; [|intro E; exfalso; exact (Hb E)]. intro b.
+    destruct (a_ctx b) as [ci|]; [|apply comm_ret].
+    apply comm_get_api; [|intros _ c; reflexivity]. intro c.
+    apply comm_nget; [|intro s0; reflexivity]. intro s0.
+    destruct (dict_get ident_eqb (a_uuid c) (ns_counters s0)) as [d|]; [|apply comm_ret].
+    destruct (subst_all (current_counters' tasks d) [] (a_params b)) as [ps' cur'].
+    apply comm_bind; [apply comm_set_api; exact Hb|intros _]. apply comm_nmod. intro s. reflexivity.
+  Qed.
+
+  Lemma comm_rebind_uuid : forall b bi u, bi <> ai -> comm g (rebind_uuid b bi u).
+  Proof.
+    intros b bi u Hb. unfold rebind_uuid.
+    apply comm_nget; [|intro s0; reflexivity]. intro s0.
+    destruct (dict_get ident_eqb (a_uuid b) (ns_place_dict s0)) as [p|]; [|apply comm_fail].
+    apply comm_bind; [apply comm_nmod; intro s; reflexivity|intros _]. apply comm_set_api. exact Hb.
+  Qed.
+
+  Theorem ots_prefix_other : forall bi, bi <> ai -> comm g (ots_prefix tasks bi).
+  Proof.
+    intros bi Hb. unfold ots_prefix.
+    apply comm_get_api; [|intro E; exfalso; exact (Hb E)]. intro b.
+    apply comm_nget; [|intro s0; reflexivity]. intro s0.
+    destruct (a_in_loop b).
+    - apply comm_bind; [apply comm_new_test_or_uuid|intro u].
+      apply comm_bind; [apply comm_set_api; exact Hb|intros _].
+      apply comm_bind; [destruct (a_has_call b); [apply comm_set_api; exact Hb|apply comm_ret]|intros _].
+      apply comm_substitute. exact Hb.
+    - destruct (ns_test_ids s0); [|apply comm_ret].
+      apply comm_bind; [apply comm_new_test_or_uuid|intro u]. apply comm_set_api. exact Hb.
+  Qed.
+
+  Theorem oss_prefix_other : forall bi, bi <> ai -> comm g (oss_prefix tasks bi).
+  Proof.
+    intros bi Hb. unfold oss_prefix.
+    apply comm_get_api; [|intro E; exfalso; exact (Hb E)]. intro b.
+    apply comm_nget; [|intro s0; reflexivity]. intro s0.
+    destruct (a_in_loop b).
+    - apply comm_bind; [apply comm_fresh_uuid|intro u0].
+      apply comm_bind; [destruct (ns_test_ids s0); [apply comm_new_test_or_uuid|apply comm_ret]|intro u].
+      apply comm_bind; [apply comm_rebind_uuid; exact Hb|intros _].
+      apply comm_bind; [apply comm_set_api; exact Hb|intros _].
+      apply comm_substitute. exact Hb.
+    - destruct (ns_test_ids s0); [|apply comm_ret].
+      apply comm_bind; [apply comm_new_test_or_uuid|intro u]. apply comm_rebind_uuid. exact Hb.
+  Qed.
+End Commute.
+
+Lemma params_at_with_delivered_other : forall ai ps bi s,
+    bi <> ai -> params_at bi (with_delivered ai ps s) = params_at bi s.
+Proof.
+  intros ai ps bi s H. unfold params_at, with_delivered. cbn. rewrite nth_error_upd.
+  apply Nat.eqb_neq in H. rewrite Nat.eqb_sym, H. reflexivity.
+Qed.
+
+(* spelled out: whatever list instance ai holds (e.g. after a hostile engine modified it), the
+   start of another instance bi succeeds or fails in the same way and leaves bi with the same
+   delivered list *)
+Corollary start_prefix_ignores_other_lists : forall tasks ai ps bi s,
+    bi <> ai ->
+    (forall u s1, ots_prefix tasks bi s = Ok (u, s1) ->
+                  exists s1', ots_prefix tasks bi (with_delivered ai ps s) = Ok (u, s1') /\
+                              params_at bi s1' = params_at bi s1) /\
+    (forall u s1, oss_prefix tasks bi s = Ok (u, s1) ->
+                  exists s1', oss_prefix tasks bi (with_delivered ai ps s) = Ok (u, s1') /\
+                              params_at bi s1' = params_at bi s1).
+Proof.
+  intros tasks ai ps bi s Hb. split; intros u s1 H.
+  - exists (with_delivered ai ps s1). rewrite (ots_prefix_other ai ps tasks bi Hb s), H. split; [reflexivity|].
+    apply params_at_with_delivered_other. exact Hb.
+  - exists (with_delivered ai ps s1). rewrite (oss_prefix_other ai ps tasks bi Hb s), H. split; [reflexivity|].
+    apply params_at_with_delivered_other. exact Hb.
+Qed.
+
+(* ---- the limit of C14 on the faithful model, as theorems ---- *)
+
+(* the statement for EVERY registered function is false *)
+Definition unique_for_all_functions : Prop :=
+  forall c tr l, run_net c = Ok tr ->
+                 NoDup (sids_of l TS (flat_map cr_log tr)) /\ NoDup (sids_of l SS (flat_map cr_log tr)).
+
+Theorem unique_for_all_functions_false : ~ unique_for_all_functions.
+Proof.
+  intro H. destruct second_listener_duplicates as (tr & H1 & _ & H3).
+  destruct (H _ _ 1 H1) as [_ N]. rewrite H3 in N. inversion N as [|x xs Hx _]. apply Hx. left. reflexivity.
+Qed.
+
+(* the LOG_EVENT entry of on_service_started re-reads the identifier after the registered
+   functions ran: in the same scenario an attached observer is told "service started" with
+   identifier 1 twice and never with identifier 0 (function 0 is told 0 and 1) *)
+Definition observer_case : runcase :=
+  {| rc_prog := rc_prog second_listener_case; rc_vals := []; rc_imm := [true; false; false];
+     rc_script := [AAttach 7; AStart];
+     rc_react := []; rc_react_all := false; rc_mutate := 0; rc_test_ids := true |}.
+
+Definition obs_ids (k : nkind) (es : list entry) : list nat :=
+  flat_map (fun e => match e with EObs _ k' _ id _ => if nkind_eqb k' k then [id] else [] | _ => [] end) es.
+
+Example observer_duplicates :
+  exists tr, run_net observer_case = Ok tr /\
+             sids SS (flat_map cr_log tr) = [0; 1] /\ obs_ids SS (flat_map cr_log tr) = [1; 1].
+Proof. eexists. split; [vm_compute; reflexivity|]. split; vm_compute; reflexivity. Qed.
